@@ -5,8 +5,8 @@
    pdb, xcfg and cif are covered at correspondence level only (see design.d/C04.md). *)
 From Coq Require Import List Bool Arith NArith ZArith String.
 From DS Require Import Base.C04_Text Base.C04_Decimal Model.C04_Fmt Gen.C04_FmtSpecs.
-From DS Require Import Model.C04_Xyz Model.C04_Rawxyz Model.C04_Pdffit Model.C04_Discus.
-From DS Require Import Proofs.C04_Fmt Proofs.C04_GenIdem Proofs.C04_NoDrift Proofs.C04_Xyz Proofs.C04_Rawxyz Proofs.C04_Pdffit Proofs.C04_Discus
+From DS Require Import Model.C04_Xyz Model.C04_Rawxyz Model.C04_Pdffit Model.C04_Discus Model.C04_Cols Model.C04_Pdb.
+From DS Require Import Proofs.C04_Fmt Proofs.C04_GenIdem Proofs.C04_NoDrift Proofs.C04_Xyz Proofs.C04_Rawxyz Proofs.C04_Pdffit Proofs.C04_Discus Proofs.C04_Cols Proofs.C04_Pdb
                        Proofs.C04_Examples.
 Import ListNotations.
 
@@ -58,6 +58,12 @@ Theorem C04_text_lines_roundtrip : forall l0 ls,
   lines_of_text (text_of_lines (l0 :: ls)) = l0 :: ls.
 Proof. exact lines_text_roundtrip_cons. Qed.
 Print Assumptions C04_text_lines_roundtrip.
+
+(* columns_roundtrip: cutting a fixed-column record at constant columns is decided on the nominal widths alone, provided
+   every field fits its column (sym_ok) *)
+Theorem C04_columns_roundtrip : forall lo hi ps, sym_ok ps = true -> (hi <= List.length (flat ps))%nat -> slice lo hi (flat ps) = scut lo hi ps.
+Proof. exact slice_flat. Qed.
+Print Assumptions C04_columns_roundtrip.
 
 (* ---------------- record level ---------------- *)
 
@@ -117,3 +123,24 @@ Theorem C04_hypotheses_satisfiable :
   ((forall c u, cubic_isaniso c (q3 pdffit_w_Uii 0 (fst (cubic_isotens c u))) (q3 pdffit_w_Uij 0 (snd (cubic_isotens c u))) = false) /\
    (forall c u, first3 (fst (cubic_isotens c u)) = u)).
 Proof. exact (conj repr_pdffit_example (conj repr_discus_example geometry_hypotheses_have_a_model)). Qed.
+
+(* pdb (TITLE, CRYST1, ATOM, ANISOU, TER, END): every structure whose fields fit their columns reads back as canon:
+   3-decimal Cartesian positions, 2-decimal occupancy and B, ANISOU integers in 1e-4, CRYST1 at 3/2 decimals *)
+Theorem C04_roundtrip_pdb : forall S, repr_pdb S = true -> exists t, write_pdb S = Some t /\ read_pdb t = Some (canon_pdb S).
+Proof. exact roundtrip_pdb. Qed.
+Print Assumptions C04_roundtrip_pdb.
+(* no drift over abstract geometry: Cartesian->fractional->Cartesian, B->Uiso->B and k->k*1e-4 keep a value of the printed
+   grid on its grid point; anisotropic atoms stay anisotropic after the 1e-4 rounding and the re-read structure is itself
+   representable (reprl_pdb).  The grid hypotheses are checked on the live objects for every generated case. *)
+Theorem C04_no_drift_pdb :
+  forall (recart : d6 -> d3 -> d3) (bw : dec -> dec) (bequiv : d6 -> list dec -> dec) (isiso : d6 -> list dec -> bool)
+         (uof : dec -> dec) (isoU : d6 -> dec -> d6),
+  (forall c v, q3 pdb_w_atom 0 (recart c (q3 pdb_w_atom 0 v)) = q3 pdb_w_atom 0 v) ->
+  (forall b, dq (fprec pdb_w_atom 4) (bw (dq (fprec pdb_w_atom 4) b)) = dq (fprec pdb_w_atom 4) b) ->
+  (forall z, uint (uof (dnorm (zdec z))) = z) ->
+  forall S n, reprl_pdb recart bw bequiv isiso uof isoU S = true ->
+  iter_opt (rt_pdb recart bw bequiv isiso uof isoU) (Datatypes.S n) S = Some (canonl_pdb recart bw bequiv isiso uof isoU S).
+Proof. exact no_drift_pdb. Qed.
+Print Assumptions C04_no_drift_pdb.
+Theorem C04_pdb_hypotheses_satisfiable : repr_pdb ex_bstru = true.
+Proof. exact repr_pdb_example. Qed.
